@@ -130,6 +130,7 @@ type Dialect struct {
 	LibMsgTypesFromZero  bool `json:"lib_msg_types_from_zero,omitempty"` // Call 0 .. Oneway 3
 	LibCompactMsgHeader  bool `json:"lib_compact_msg_header,omitempty"`  // second header byte = type (no shift, no version)
 	LibCompactDoubleBE   bool `json:"lib_compact_double_be,omitempty"`   // compact doubles big-endian
+	LibBinaryStopWithID  bool `json:"lib_binary_stop_with_id,omitempty"` // binary STOP written (and read) as a full 3-byte field header 00 00 00
 	CompactFalseElem     byte `json:"compact_false_elem,omitempty"`      // byte written for a false element in a compact collection (0 or 2)
 }
 
@@ -315,6 +316,9 @@ func (e *Encoder) binaryValue(v Value) {
 			e.binaryValue(f.V)
 		}
 		e.byte1(0)
+		if e.D.LibBinaryStopWithID {
+			e.be16(0)
+		}
 	default:
 		panic("thriftspec: cannot encode " + v.T.String())
 	}
@@ -692,6 +696,11 @@ func (d *Decoder) binaryValue(t T) (Value, error) {
 				return v, err
 			}
 			if tb == 0 {
+				if d.D.LibBinaryStopWithID {
+					if _, err := d.fixed(2); err != nil {
+						return v, err
+					}
+				}
 				break
 			}
 			ft, ok := d.D.binT(tb)
